@@ -19,6 +19,17 @@
 (*                       the increase of the out_of_order counter, for all   *)
 (*                       names of the run: both must equal what the blocks   *)
 (*                       since the last total explain                        *)
+(* "Fold" family (a table with order validation, a rewriter that folds k      *)
+(* input names into one emitted name, and a blacklist entry; all goroutines  *)
+(* send points of all the names): the register of a point is that of its     *)
+(* INPUT name (Ordered!RegOf without the deviation key_after_rewrite), so    *)
+(* the history is judged input name by input name (Ordered!Independent): one *)
+(* block per input name, closed by finp, then total for the history.  The    *)
+(* calls of a blacklisted input name (all of them newer than every earlier   *)
+(* point of that name: nothing to reject) end with                           *)
+(*   endx c fwd times    the point is dropped behind the order check: it may *)
+(*                       arrive nowhere although it was accepted; total      *)
+(*                       explains it as dropped, not as rejected             *)
 (* The linearization point (Decide, inside the mutex) is not logged: TLC     *)
 (* searches an order of Decide steps, each between the begin and the end of  *)
 (* its call, under which every result is that of the sequential max-register *)
@@ -28,21 +39,22 @@ EXTENDS Integers, Sequences, FiniteSets, Json, TLC, TLCExt, IOUtils
 
 TLog == ndJsonDeserialize("trace.ndjson")
 
-VARIABLES l, last, pend, res, nrej, rejset, totrej
-tvars == <<l, last, pend, res, nrej, rejset, totrej>>
+VARIABLES l, last, pend, res, nrej, rejset, totrej, totdrop
+tvars == <<l, last, pend, res, nrej, rejset, totrej, totdrop>>
 
 ASSUME TLCSet(1, 0)
 Ev == TLog[l]
 Is(e) == l <= Len(TLog) /\ Ev.ev = e /\ l' = l + 1
 
 TInit == l = 1 /\ last = 0 /\ pend = <<>> /\ res = <<>> /\ nrej = 0 /\ rejset = {} /\ totrej = 0
+         /\ totdrop = 0
 
 THist == Is("hist") /\ last' = 0 /\ pend' = <<>> /\ res' = <<>> /\ nrej' = 0 /\ rejset' = {}
-         /\ UNCHANGED totrej
+         /\ UNCHANGED <<totrej, totdrop>>
 
 TBegin == /\ Is("begin")
           /\ pend' = (Ev.c :> Ev.ts) @@ pend
-          /\ UNCHANGED <<last, res, nrej, rejset, totrej>>
+          /\ UNCHANGED <<last, res, nrej, rejset, totrej, totdrop>>
 
 \* internal: the critical section of a pending call
 Decide(c) ==
@@ -53,35 +65,44 @@ Decide(c) ==
      /\ nrej' = IF a THEN nrej ELSE nrej + 1
      /\ rejset' = IF a THEN rejset ELSE rejset \cup {c}
   /\ pend' = [x \in (DOMAIN pend) \ {c} |-> pend[x]]
-  /\ UNCHANGED <<l, totrej>>
+  /\ UNCHANGED <<l, totrej, totdrop>>
 
 TEnd == /\ Is("end") /\ Ev.c \in DOMAIN res
         /\ Ev.fwd = res[Ev.c]                  \* forwarded iff accepted
         /\ Ev.times = (IF res[Ev.c] THEN 1 ELSE 0)   \* and exactly once
         /\ res' = [x \in (DOMAIN res) \ {Ev.c} |-> res[x]]
-        /\ UNCHANGED <<last, pend, nrej, rejset, totrej>>
+        /\ UNCHANGED <<last, pend, nrej, rejset, totrej, totdrop>>
+
+\* a call on a blacklisted input name returned: forwarded only if accepted, at most once; accepted and not
+\* forwarded = dropped behind the order check
+TEndX == /\ Is("endx") /\ Ev.c \in DOMAIN res
+         /\ (Ev.fwd => res[Ev.c])
+         /\ Ev.times = (IF Ev.fwd THEN 1 ELSE 0)
+         /\ totdrop' = totdrop + (IF res[Ev.c] /\ ~Ev.fwd THEN 1 ELSE 0)
+         /\ res' = [x \in (DOMAIN res) \ {Ev.c} |-> res[x]]
+         /\ UNCHANGED <<last, pend, nrej, rejset, totrej>>
 
 TFin == /\ Is("fin") /\ pend = <<>> /\ res = <<>>
         /\ Ev.ooo = nrej                       \* every rejection counted, nothing else
         /\ Ev.bad = (nrej > 0)                 \* reported as a bad metric
         /\ (Ev.bad => Ev.badcall \in rejset)
-        /\ UNCHANGED <<last, pend, res, nrej, rejset, totrej>>
+        /\ UNCHANGED <<last, pend, res, nrej, rejset, totrej, totdrop>>
 
 \* a block of the many-names projection ends: its rejections are added to those the whole run must account for
 TFinP == /\ Is("finp") /\ pend = <<>> /\ res = <<>>
          /\ Ev.bad = (nrej > 0)
          /\ (Ev.bad => Ev.badcall \in rejset)
          /\ totrej' = totrej + nrej
-         /\ UNCHANGED <<last, pend, res, nrej, rejset>>
+         /\ UNCHANGED <<last, pend, res, nrej, rejset, totdrop>>
 
 \* the whole many-names run: n calls, fwd points at the route, out_of_order counter + ooo
 TTotal == /\ Is("total") /\ pend = <<>> /\ res = <<>>
           /\ Ev.ooo = totrej
-          /\ Ev.fwd = Ev.n - totrej
-          /\ totrej' = 0
+          /\ Ev.fwd = Ev.n - totrej - totdrop
+          /\ totrej' = 0 /\ totdrop' = 0
           /\ UNCHANGED <<last, pend, res, nrej, rejset>>
 
-TNext == THist \/ TBegin \/ TEnd \/ TFin \/ TFinP \/ TTotal \/ \E c \in DOMAIN pend : Decide(c)
+TNext == THist \/ TBegin \/ TEnd \/ TEndX \/ TFin \/ TFinP \/ TTotal \/ \E c \in DOMAIN pend : Decide(c)
 TSpec == TInit /\ [][TNext]_tvars
 
 HighWater == TLCSet(1, IF l - 1 > TLCGet(1) THEN l - 1 ELSE TLCGet(1))
